@@ -61,7 +61,7 @@ class SQLRepo:
                     self._session.delete(prop_link)
                     if delete_prop:
                         self._session.delete(prop_link.prop)
-                    self._session.commit()
+                    self._flush_and_expire()
 
                 for note_tags in [
                     sql_note.areas,
@@ -72,7 +72,7 @@ class SQLRepo:
                     for tag in note_tags:  # type: ignore[attr-defined]
                         if len(tag.notes) == 1:
                             self._session.delete(tag)
-                            self._session.commit()
+                            self._flush_and_expire()
 
                 self._session.delete(sql_note)
 
@@ -144,6 +144,18 @@ class SQLRepo:
             self._note_converter.to_entity(sql_note)
             for sql_note in results.all()
         ]
+
+    def _flush_and_expire(self) -> None:
+        """Sends pending changes to the DB and reloads all relationships.
+
+        NOTE: This does what a commit does for the objects of this session,
+        but WITHOUT ending the transaction. Removing a file from the DB MUST
+        NOT be committed piece by piece: a process that is killed half way
+        through would leave the file's notes in the DB without (some of)
+        their tags / properties.
+        """
+        self._session.flush()
+        self._session.expire_all()
 
     def _record_seen_page(self, page: Page) -> None:
         if page not in self.seen_pages:
